@@ -479,7 +479,7 @@ theorem intoBigint_spec {c : MontCfg} {pv : Nat} (h : CfgOK c pv) {a : List Nat}
 
 /-! ### `fromBigint`, `fpNew` -/
 
-theorem r2_elem {c : MontCfg} {pv : Nat} (h : CfgOK c pv) : Elem c pv c.r2 :=
+theorem cfg_r2_elem {c : MontCfg} {pv : Nat} (h : CfgOK c pv) : Elem c pv c.r2 :=
   ⟨h.r2_len, h.r2_wf, by rw [h.r2_val]; exact Nat.mod_lt _ (by have := h.p_gt; omega)⟩
 
 /-- the Montgomery form `x·R mod p` is the unique residue `y < p` with `y·R ≡ x·R2` -/
@@ -523,7 +523,7 @@ theorem fromBigint_some {c : MontCfg} {pv : Nat} (h : CfgOK c pv) {x : List Nat}
         have := (geq_iff_value_le (by rw [hx.len, h.p_len]) hx.wf h.p_wf).mp hgg
         rw [h.p_val] at this; omega
     have hxe : Elem c pv x := ⟨hx.len, hx.wf, hlt⟩
-    obtain ⟨m1, m2⟩ := montMul_spec h hxe (r2_elem h).limbs
+    obtain ⟨m1, m2⟩ := montMul_spec h hxe (cfg_r2_elem h).limbs
     exact ⟨Mont.mul c x c.r2, by simp [fromBigint, hz', hg], m1, to_mont_unique h m1.lt m2⟩
 
 /-- cancelling `R` : the integer recovered by `intoBigint` from the Montgomery form -/
@@ -541,7 +541,7 @@ theorem fpNew_spec {c : MontCfg} {pv : Nat} (h : CfgOK c pv) {x : List Nat} (hx 
     have hv := (isZero_iff x).mp hz
     exact ⟨⟨hx.len, hx.wf, by omega⟩, by rw [hv]; simp⟩
   · rw [if_neg hz]
-    have hr2 := r2_elem h
+    have hr2 := cfg_r2_elem h
     have hab : value x * value c.r2 < B ^ c.n * pv := by
       have h1 := hx.lt
       have h2 := hr2.lt
@@ -644,7 +644,7 @@ theorem sumW_add_mul (f g : List Nat → Nat) (l : List (List Nat × List Nat)) 
   | nil => simp [sumW_nil]
   | cons ab l ih => rw [sumW_cons, sumW_cons, sumW_cons, ih]; ring
 
-theorem getD_lt {a : List Nat} (ha : WF a) (j : Nat) : a.getD j 0 < B := by
+theorem wf_getD_lt {a : List Nat} (ha : WF a) (j : Nat) : a.getD j 0 < B := by
   rw [List.getD_eq_getElem?_getD]
   cases hj : a[j]? with
   | none => exact B_pos
@@ -662,7 +662,7 @@ theorem sumW_digit_bound {c : MontCfg} {pv : Nat} {l : List (List Nat × List Na
   | cons ab l ih =>
     have ih := ih (fun x hx => hl x (by simp [hx]))
     have ⟨h1, h2⟩ := hl ab (by simp)
-    have hd := getD_lt h1.wf j
+    have hd := wf_getD_lt h1.wf j
     have hv := h2.lt
     rw [sumW_cons, List.length_cons]
     generalize ab.1.getD j 0 = x at *
